@@ -20,6 +20,9 @@ type C12Boot struct {
 	// "" = read then ParseArgs(nil); "parse-read" = ParseArgs(nil) then read;
 	// "parse-read-parse" = both.
 	Order string `json:"order,omitempty"`
+	// PreFail: before the write that is judged, the same IniParser is asked to
+	// write to a destination that fails part-way (the program then retries).
+	PreFail []simrt.WriteFault `json:"pre_fail,omitempty"`
 }
 
 type C12Payload struct {
@@ -74,6 +77,19 @@ func (propC12) Gen(r *Rng, idx int, tier string) *Scenario {
 	sc := &Scenario{Prop: "C12", Family: "roundtrip", C12: &C12Payload{}}
 	sc.Decl = genDecl(r.Fork("decl"), c12Cfg())
 	makeSubOptional(sc.Decl)
+	if ur := r.Fork("unnamed"); ur.Chance(1, 5) {
+		// a command's extra group without a name (AddGroup("", ...)): its options
+		// live in the command's own section
+		var cands []*CmdSpec
+		for _, c := range sc.Decl.allCmds() {
+			if len(c.C.Groups) > 0 {
+				cands = append(cands, c.C)
+			}
+		}
+		if len(cands) > 0 {
+			cands[ur.Intn(len(cands))].Groups[0].Name = ""
+		}
+	}
 	sc.World = WorldSpec{Cols: 80, Now: 1700000000}
 	p := sc.C12
 	pr := r.Fork("pre")
@@ -108,6 +124,9 @@ func (propC12) Gen(r *Rng, idx int, tier string) *Scenario {
 	for i := 0; i < nb; i++ {
 		b := C12Boot{Stores: genC12Stores(r.Fork(fmt.Sprint("stores", i)), sc.Decl), IniOpts: uint(br.Intn(8)) << 1, ViaFile: br.Chance(1, 3)}
 		b.Order = br.Pick([]string{"", "", "parse-read", "parse-read-parse"})
+		if fr := r.Fork(fmt.Sprint("prefail", i)); fr.Chance(1, 6) {
+			b.PreFail = []simrt.WriteFault{{At: fr.Intn(3), Accept: fr.Pick2([]int{0, 1, 7, 40}), Err: fr.Pick([]string{"ENOSPC", "EIO", "EPIPE", ""}), Sticky: fr.Bool()}}
+		}
 		b.Chunks, b.Rest = genChunkPlan(br, 300)
 		if len(b.Chunks) > 0 && br.Bool() {
 			b.Chunks = nil
@@ -174,6 +193,9 @@ func (propC12) Judge(sc *Scenario) *Verdict {
 		if b.ViaFile {
 			file = "cfg.ini" // every boot saves to the same path, as a program would
 			_ = i
+		}
+		if len(b.PreFail) > 0 {
+			s2.Ops = append(s2.Ops, Op{Kind: "iniwrite", IniOpts: b.IniOpts, File: file, WFaults: b.PreFail})
 		}
 		w := len(s2.Ops)
 		s2.Ops = append(s2.Ops, Op{Kind: "iniwrite", IniOpts: b.IniOpts, File: file})
@@ -327,8 +349,8 @@ func sectionCollision(d *DeclSpec) bool {
 			}
 			s += g.Name
 		}
-		if g == d.Root && false {
-			return
+		if g.Name == "" && len(cp) > 0 {
+			return // an unnamed group of a command shares the command's section by design
 		}
 		add(s)
 	})
